@@ -3,6 +3,7 @@ package main
 import (
 	"crypto/sha256"
 	"fmt"
+	"go/types"
 	"os"
 	"path/filepath"
 	"sort"
@@ -91,7 +92,13 @@ func loadProgram() (*Program, error) {
 		return nil, fmt.Errorf("%d load errors in %s (the repository or a harness does not type-check)", nerr, modPath)
 	}
 	prog, _ := ssautil.AllPackages(initial, ssa.InstantiateGenerics)
-	prog.Build()
+	// Build function bodies for everything except golang.org/x/text (never interpreted: modelled in
+	// sx/foreign.go); its table initialisers are by far the largest bodies in the program.
+	for _, p := range prog.AllPackages() {
+		if !strings.HasPrefix(p.Pkg.Path(), "golang.org/x/text") {
+			p.Build()
+		}
+	}
 	P := &Program{Prog: prog, Pkgs: map[string]*ssa.Package{}}
 	for _, p := range prog.AllPackages() {
 		P.Pkgs[p.Pkg.Path()] = p
@@ -156,4 +163,40 @@ func funcHash(fn *ssa.Function) string {
 	var sb strings.Builder
 	fn.WriteTo(&sb)
 	return fmt.Sprintf("%x", sha256.Sum256([]byte(sb.String())))[:16]
+}
+
+// lookupQualified resolves "sub/pkg.Func" or "sub/pkg.(*Type).method" (package path below the
+// module root).
+func (P *Program) lookupQualified(q string) (*ssa.Function, error) {
+	if i := strings.Index(q, ".(*"); i >= 0 {
+		pkgSuffix := q[:i]
+		rest := q[i+3:]
+		j := strings.Index(rest, ").")
+		if j < 0 {
+			return nil, fmt.Errorf("bad method name %q", q)
+		}
+		tname, mname := rest[:j], rest[j+2:]
+		path := modPath
+		if pkgSuffix != "" {
+			path += "/" + pkgSuffix
+		}
+		p := P.Pkgs[path]
+		if p == nil {
+			return nil, fmt.Errorf("package %s not loaded", path)
+		}
+		t := p.Type(tname)
+		if t == nil {
+			return nil, fmt.Errorf("type %s.%s not found", path, tname)
+		}
+		f := P.Prog.LookupMethod(types.NewPointer(t.Type()), p.Pkg, mname)
+		if f == nil {
+			return nil, fmt.Errorf("method %s not found", q)
+		}
+		return f, nil
+	}
+	i := strings.LastIndex(q, ".")
+	if i < 0 {
+		return P.lookupFunc("", q)
+	}
+	return P.lookupFunc(q[:i], q[i+1:])
 }
